@@ -117,6 +117,23 @@ def cases(extra=0, seed=1):
         out.append(("unsupported " + name, prog("    println(\"before\");\n    %s;\n    println(\"after\");\n" % call), None, "error", None))
     out.append(("unsupported u_vd", prog("    println(\"before\");\n    echo.u_vd(1.5);\n    println(\"after\");\n"), None, "error",
                 "ffi_void_unsupported_silent"))
+    # argument expressions with effects: evaluated exactly once, the native function receives that value (qualified and
+    # unqualified calls, int and double parameters)
+    NT = DECLS + "int ticket = 0;\nint next_ticket() {\n    ticket = ticket + 1;\n    return ticket;\n}\ndouble next_half() {\n    ticket = ticket + 1;\n    return ticket + 0.5;\n}\n"
+    for q in ("echo.", ""):
+        out.append(("effect args %sincr" % q, prog("    int k = 4;\n    println(%si1(k++), k);\n    println(%si1(++k), k);\n    println(%si2_1(k++, k++), k);\n" % (q, q, q)),
+                    "4 5\n6 6\n7 8\nEND\n", "ok", None))
+        out.append(("effect args %scall" % q, NT + "int main() {\n    println(%si2_0(next_ticket(), next_ticket()), %si2_1(next_ticket(), next_ticket()), ticket);\n"
+                    "    println(%si1(%si1(next_ticket())), ticket);\n    double r = %sd2_1(next_half(), next_half());\n    println(r == 7.5, ticket);\n"
+                    "    %svi(next_ticket());\n    println(%sgetseen(), ticket);\n    println(\"END\");\n    return 0;\n}\n" % (q, q, q, q, q, q, q),
+                    "1 4 4\n5 5\n1 7\n8 8\nEND\n", "ok", None))
+    # a double result used as an operand (unary minus, mixed arithmetic, comparison, argument of println) keeps its value
+    out.append(("double result as operand", prog("    double x = -echo.d1(1.5);\n    println(x == -1.5);\n    double y = echo.d1(1.5) + 1;\n    println(y == 2.5);\n"
+                                                  "    println(echo.d1(2.5) > 2.25, echo.d1(1.5) * 2.0 == 3.0);\n    double z = 10 - d1(0.25);\n    println(z == 9.75);\n"),
+                "1\n1\n1 1\n1\nEND\n", "ok", "ffi_double_result_truncated_in_expression"))
+    # an int argument to a double parameter is converted, not dropped
+    out.append(("int argument to double parameter", prog("    int k = 4;\n    println(echo.d1(3) == 3.0, echo.d1(k) == 4.0, d2_1(1, 2) == 2.0);\n"),
+                "1 1 1\nEND\n", "ok", "ffi_int_argument_to_double_parameter"))
     # wrong argument count
     out.append(("arity i1()", prog("    println(echo.i1());\n"), None, "error", None))
     out.append(("arity i1(1,2)", prog("    println(echo.i1(1, 2));\n"), None, "error", None))
